@@ -1,7 +1,10 @@
 package galaxy
 
 import (
+	"fmt"
 	"strings"
+
+	"github.com/containernetworking/cni/pkg/types"
 
 	"github.com/containernetworking/cni/pkg/skel"
 	cniipam "tkestack.io/galaxy/cni/ipam"
@@ -13,6 +16,8 @@ import (
 // C13: address, prefix length, gateway and VLAN of every IP galaxy-ipam allocated arrive unchanged and in order at
 // the CNI plugin: real Bind -> annotation -> parseExtendedCNIArgs/resolveNetworks -> CmdAdd argument string ->
 // plugin-side ParseCNIArgs + JSON decoding (cni/ipam.Allocate) -> IPInfoToResult.
+// INTERCEPT: github.com/containernetworking/plugins/pkg/ipam.ExecAdd => verifModelIPAMExecAdd
+// ASSUME: C13: the fallback ipam plugin named in a netconf is not installed: invoking it fails (engine: ipam.ExecAdd intercepted by a harness model that returns that error; natively the real ExecAdd does not find the binary)
 // ASSUME: C13: encoding/json is replaced by the engine's tag-aware codec (real text for concrete values, an abstract document when a leaf is symbolic); the net package's CIDR text codec is trusted
 
 func vC13(topo, k int, symbolic bool, vlans ...uint16) {
@@ -40,7 +45,10 @@ func vC13(topo, k int, symbolic bool, vlans ...uint16) {
 		raw := vRawArgs()
 		verifAssert("C13/args-separator-free", strings.Count(raw, "ipinfos=") == 1, "the ipinfos argument is not carried exactly once")
 	}
-	vlans, results, err := cniipam.Allocate("", &skel.CmdArgs{Args: vFirstArgs()})
+	// the plugin's netconf may also name a fallback ipam plugin ("ipam": {"type": ...}); the IPs galaxy-ipam allocated
+	// have precedence (the fallback is not installed here: running it is an error)
+	ipamType := nondetPick("", "verif-no-such-ipam")
+	vlans, results, err := cniipam.Allocate(ipamType, &skel.CmdArgs{Args: vFirstArgs(), StdinData: []byte(`{"cniVersion":"0.2.0","name":"n","type":"t","ipam":{"type":"verif-no-such-ipam"}}`)})
 	verifReach("decoded")
 	verifAssert("C13/plugin-decodes", err == nil, "the plugin-side decoder rejected the arguments galaxy passed")
 	if err != nil {
@@ -74,4 +82,9 @@ func VerifC13_q_endToEndConcrete() {
 	k := nondetChoice(4)
 	vlan := []uint16{0, 2, 4094, 65535}[nondetChoice(4)]
 	vC13(topo, k, false, vlan, 7)
+}
+
+// engine side: the fallback ipam plugin does not exist
+func verifModelIPAMExecAdd(plugin string, netconf []byte) (types.Result, error) {
+	return nil, fmt.Errorf("failed to find plugin %q in path", plugin)
 }
